@@ -210,6 +210,14 @@ pub fn admin_menu() -> Vec<Op> {
         v.push(Op::ReceiveUnstaked { sender: p.clone(), batch: 1, funds: Funds::Native });
         v.push(Op::Withdraw { sender: p.clone(), batch: 1 });
     }
+    // the plain native-chain accounts of the staker / collector as senders of the hook messages (valid protocol-chain
+    // senders when both chains share a prefix): only their ibc-hooks accounts are authorised
+    for p in [P::StakerAcct, P::CollectorAcct, P::N1] {
+        v.push(Op::Rewards { sender: p.clone(), funds: Funds::Native, faults: vec![] });
+        for b in 1..=3 {
+            v.push(Op::ReceiveUnstaked { sender: p.clone(), batch: b, funds: Funds::Native });
+        }
+    }
     // forced recovery of transfers addressed to the caller itself (a native-chain account can be a sender when both
     // chains share a prefix): still admin-only
     for (p, ids) in [(P::N1, vec![6u64]), (P::N1, vec![7]), (P::StakerAcct, vec![3]), (P::StakerAcct, vec![5]), (P::StakerAcct, vec![2, 4]), (P::U(0), vec![5]), (P::Admin, vec![5])] {
